@@ -79,7 +79,7 @@ POOLS = {
     "NULL": dict(cls="null"),
     "SINGLE": dict(cls="single"),
 }
-BODIES = ("coci", "coci2", "inval", "delfairy", "detach", "softinv")
+BODIES = ("coci", "coci2", "inval", "delfairy", "detach", "softinv", "dispose")
 
 
 class Harness:
@@ -186,6 +186,9 @@ class Harness:
     def _mk_body(self, name):
         def body(ctx, tid):
             reps = 2 if name == "coci2" else 1
+            if name == "dispose":
+                # Pool.dispose() closes idle connections only; the pool stays usable
+                ctx["p"].dispose()
             for _ in range(reps):
                 f = self._connect(ctx, tid)
                 if f is None:
@@ -265,6 +268,9 @@ def configs(tier):
                     out.append((pn, bp, held))
         else:
             for bp in pairs:
+                if cfg["cls"] in ("static", "single") and "dispose" in bp:
+                    # their dispose() closes connections that other threads are using, as documented
+                    continue
                 if cfg["cls"] == "static" and ("inval" in bp or "detach" in bp):
                     # invalidating / detaching the single shared StaticPool connection while another
                     # thread uses it is documented single-connection behaviour, not a pool defect
